@@ -29,6 +29,7 @@ from vlib import q, proto
 from vlib.proto import C, T, is_c, is_t, show, subterms
 from vlib.symwalk import SymInterp
 from vlib.sym import Lin, equal
+from vlib.pat import Pat, returned
 from vlib.front import unparse, dotted, const_value, AnchorMissing
 
 TR = 'phylib/io/traces.py'
@@ -170,17 +171,21 @@ def t1_dispatch(ctx):
                   'all targets override _get_part (%d paths)' % (raw_ext, len(outs)), '_get_ephys_constructor')
     # get_ephys_reader: klass(arg, **kwargs)
     ge = repo.func(TR, 'get_ephys_reader')
-    rets = [r for r in ge.returns() if isinstance(r.value, ast.Call)]
-    ok = False
-    for r in rets:
-        c = r.value
-        if isinstance(c.func, ast.Name) and len(c.args) == 1 and any(k.arg is None for k in c.keywords):
-            un = [a for a in ge.nodes(ast.Assign) if isinstance(a.targets[0], ast.Tuple) and isinstance(a.value, ast.Call) and dotted(a.value.func) == '_get_ephys_constructor']
-            if un:
-                names = [unparse(x) for x in un[0].targets[0].elts]
-                ok = len(names) == 3 and c.func.id == names[0] and unparse(c.args[0]) == names[1] and unparse([k.value for k in c.keywords if k.arg is None][0]) == names[2]
-    ctx.check(ok, 'C01.T1', ge, rets[-1] if rets else 'get_ephys_reader', 'get_ephys_reader instantiates the dispatched class with the dispatched argument and kwargs',
-              'get_ephys_reader does not call klass(arg, **kwargs) on the dispatch result')
+    PG = Pat(ge)
+    un = PG.stmt('(V_klass, V_arg, V_kw) = _get_ephys_constructor(REST)')
+    rv = [x for _, x in returned(ge) if isinstance(x, ast.Call)]
+    if un is None or not rv:
+        ctx.undecided('C01.T1', ge, 'get_ephys_reader: unpacking of the dispatch result / instantiation not recognised')
+    else:
+        g = any(PG.m('V_klass(V_arg, **V_kw)', x) for x in rv)
+        vocab = {PG.name('V_klass'), PG.name('V_arg'), PG.name('V_kw')}
+        b_ = not g and any({n.id for n in ast.walk(x) if isinstance(n, ast.Name)} <= vocab for x in rv)
+        if g:
+            ctx.holds('C01.T1', ge, 'get_ephys_reader instantiates the dispatched class with the dispatched argument and kwargs', rv[-1])
+        elif b_:
+            ctx.violated('C01.T1', ge, rv[-1], 'get_ephys_reader returns `%s`, not klass(arg, **kwargs) of the dispatch result' % unparse(rv[-1]))
+        else:
+            ctx.undecided('C01.T1', ge, 'instantiation of the dispatched reader not in a recognised form', rv[-1])
 
 
 # ---------------------------------------------------------------------------------------------- T2 / D1
@@ -303,16 +308,22 @@ def t2_d1_readers(ctx):
                 ctx.undecided('C01.D2', init, '%s: provenance of the mapped file sequence not recognised (%s)' % (cls.name, why2))
     # _get_part_bounds: [0] + cumulative first-axis sizes in order
     pb = repo.func(TR, '_get_part_bounds')
-    r = [x for x in pb.returns() if x.value is not None]
-    okp = False
-    if r:
-        e = pb.expand(r[-1].value)
-        t = unparse(e).replace(' ', '')
-        p0 = pb.params[0]
-        okp = t in ('[0]+list(np.cumsum([arr.shape[0]forarrin%s]))' % p0, '[0]+list(np.cumsum([len(arr)forarrin%s]))' % p0,
-                    '[0]+np.cumsum([arr.shape[0]forarrin%s]).tolist()' % p0)
-    ctx.check(okp, 'C01.D1', pb, r[-1] if r else '_get_part_bounds', 'part bounds = [0] + running sums of the first-axis sizes, in the order of the parts',
-              'part bounds are not [0] + cumulative first-axis sizes of the parts in order')
+    rv = [x for _, x in returned(pb)]
+    p0 = pb.params[0]
+    goods = ['[0] + list(np.cumsum([V_a.shape[0] for V_a in %s]))' % p0, '[0] + list(np.cumsum([len(V_a) for V_a in %s]))' % p0, '[0] + np.cumsum([V_a.shape[0] for V_a in %s]).tolist()' % p0,
+             '[0] + list(np.cumsum([V_a.shape[0] for V_a in %s], REST))' % p0, 'np.concatenate(([0], np.cumsum([V_a.shape[0] for V_a in %s])))' % p0,
+             'list(np.concatenate(([0], np.cumsum([V_a.shape[0] for V_a in %s]))))' % p0, 'np.r_[0, np.cumsum([V_a.shape[0] for V_a in %s])]' % p0]
+    bads = ['list(np.cumsum([V_a.shape[0] for V_a in %s]))' % p0, '[0] + list(np.cumsum([V_a.shape[1] for V_a in %s]))' % p0, '[0] + [V_a.shape[0] for V_a in %s]' % p0,
+            '[0] + list(np.cumsum([V_a.shape[0] for V_a in %s[::-1]]))' % p0, '[0] + list(np.cumsum([V_a.shape[0] for V_a in reversed(%s)]))' % p0,
+            '[0] + list(np.cumsum([V_a.shape[0] for V_a in sorted(%s)]))' % p0, '[1] + list(np.cumsum([V_a.shape[0] for V_a in %s]))' % p0]
+    g = any(Pat().any(goods, x) for x in rv)
+    b_ = not g and any(Pat().any(bads, x) for x in rv)
+    if g:
+        ctx.holds('C01.D1', pb, 'part bounds = [0] + running sums of the first-axis sizes, in the order of the parts', rv[-1])
+    elif b_:
+        ctx.violated('C01.D1', pb, rv[-1], 'part bounds are `%s`, not [0] + cumulative first-axis sizes of the parts in order' % unparse(rv[-1]))
+    else:
+        ctx.undecided('C01.D1', pb, '_get_part_bounds not in a recognised form', rv[-1] if rv else None)
 
 
 # ---------------------------------------------------------------------------------------------- S1 S2 U1
